@@ -59,6 +59,7 @@ PROPS = {
             T("TestC04SweepThenLoad", "fleet", 1500, 160000, shards=16),
             T("TestC04LoopEnum", "fleet", 1, 1, enum=True, qshards=4, shards=8, procs=4),
             T("TestC04ForeignMarker", "fleet", 1500, 160000, shards=16, qshards=2),
+            T("TestC04OldDelete", "fleet", 800, 96000, shards=16, qshards=4),
         ],
         "assumptions": [
             "sweeper clause for snapshots in the current format (version-1 snapshots carry no deleted flag)",
@@ -101,6 +102,7 @@ PROPS = {
         "tests": [
             T("TestC05Enum", "fleet", 1, 1, enum=True, qshards=8, shards=8, procs=4),
             T("TestC05CleanerEnum", "fleet", 1, 1, enum=True, qshards=4, shards=8, procs=4),
+            T("TestC05StaleEnum", "fleet", 1, 1, enum=True, qshards=4, shards=4, procs=4),
             T("TestC05Bucket", "fleet", 400, 24000, shards=16, qshards=8, procs=4),
         ],
         "assumptions": [
